@@ -87,8 +87,9 @@ PROPS["C18"] = dict(
     pkg="./props/sched", level="exploration", design_ref="DESIGN.md §3 C18, Appendix E",
     technique="rapid-generated and grid-enumerated schedule configurations and instants against an explicit calendar enumeration of the windows; relation laws (symmetry, transitivity) checked on generated triples",
     stages=[dict(name="rapid", kind="rapid", run="^TestC18_Rapid$", checks=(3000, 60000), shards=(8, 16), timeout=(400, 2400)),
-            dict(name="grid", kind="plain", run="^TestC18_Grid$", shards=(8, 16), timeout=(600, 3000))],
-    require=["config:weekly", "config:overnight", "config:weekdays", "config:overnight+weekdays", "route:settings", "route:constructor",
+            dict(name="grid", kind="plain", run="^TestC18_Grid$", shards=(8, 16), timeout=(600, 3000)),
+            dict(name="consumer", kind="rapid", run="^TestC18_Consumer$", checks=(1500, 30000), shards=(4, 16), timeout=(400, 2400))],
+    require=["config:weekly", "config:overnight", "config:weekdays", "config:overnight+weekdays", "route:settings", "route:constructor", "consumer:outside-schedule", "consumer:inside-schedule", "consumer:reset-on-new-window",
              "pair:same=true", "pair:both-in-range-different-windows", "nontrivial:weekly", "nontrivial:overnight+weekdays"],
     assumptions=["windows are defined on the local wall clock of the configured zone; instants within 2 s of an edge clock value and windows with an edge inside a zone-transition hour are unspecified and excluded (counted)",
                  "tzdata is embedded in the test binary (time/tzdata), so zone rules do not depend on the host"],
